@@ -275,9 +275,30 @@ def gen_html_input(rng):
     return s
 
 
+XML_NS_URI = "http://www.w3.org/XML/1998/namespace"
+
+
+def gen_xml_alias_tag(rng):
+    """a start tag whose attributes are drawn from tiny pools of prefixes, bound URIs and local names, so that one
+    expanded name is often reached twice - through a repeated name or through two prefixes bound to one URI (the
+    reserved xml prefix and its URI included); declarations sit in the tag itself, in any position"""
+    uris = ["u", "v", XML_NS_URI]
+    decls = [("xmlns:" + p, rng.choice(uris)) for p in rng.sample(["p", "q"], rng.randint(0, 2))]
+    if rng.random() < 0.15:
+        decls.append(("xmlns", rng.choice(uris)))
+    attrs = [(rng.choice(["", "p:", "q:", "xml:"]) + rng.choice(["x", "lang"]), str(i)) for i in range(rng.randint(2, 4))]
+    items = decls + attrs
+    rng.shuffle(items)
+    name = rng.choice(["a", "p:a", "q:b"])
+    return "<%s %s%s>" % (name, " ".join('%s="%s"' % kv for kv in items), rng.choice(["", "/"]))
+
+
 def gen_xml_input(rng):
-    if rng.random() < 0.35:
+    r = rng.random()
+    if r < 0.30:
         return T.gen_xml(rng)
+    if r < 0.45:
+        return "".join(gen_xml_alias_tag(rng) if rng.random() < 0.5 else rng.choice(XML) for _ in range(rng.randint(1, 8)))
     return "".join(rng.choice(XML) for _ in range(rng.randint(1, 14)))
 
 
@@ -393,6 +414,32 @@ def run_all(ck, impl, model, cases, margs=()):
 
 def trace_ops(trace):
     return [x for x in trace.split(" ; ") if x and not x.startswith("#suspend")]
+
+
+def expanded_name_duplicates(trace):
+    """reading of "two attributes with the same qualified name" after namespace processing (Namespaces in XML 6.3: an
+    element may not have two attributes whose qualified names have the same local part and prefixes bound to the same
+    namespace name): the ops whose attribute list holds one (namespace, local name) twice, whatever the prefixes.
+    Restricted to names that are in a namespace.  The extracted Coq judge compares QualName values (prefix included, as `QualName: Eq` does); this oracle is the
+    namespace-aware half.  Returns [(call index, op text)]."""
+    bad = []
+    for i, o in enumerate(trace_ops(trace)):
+        if o.startswith("create_element "):
+            t = TOK.findall(o)[6:]          # op H prefix ns local FLAGS | N attrs...
+        elif o.startswith("add_attrs_if_missing "):
+            t = TOK.findall(o)[2:]
+        else:
+            continue
+        if not t or not t[0].isdigit():
+            continue
+        n = int(t[0])
+        names = [(t[1 + 4 * k + 1], t[1 + 4 * k + 2]) for k in range(n) if 1 + 4 * k + 2 < len(t)]
+        # only names in a namespace: the rule is about prefixes BOUND to one namespace name; an unbound prefix
+        # (xml5ever's error recovery keeps the prefix and puts the name in no namespace) is not covered by it
+        names = [x for x in names if x[0] != '""']
+        if len(set(names)) != len(names):
+            bad.append((i, o))
+    return bad
 
 
 def op_hist(trace, hist):
@@ -663,6 +710,14 @@ def judge_batch(ck, cases, res, stats, hist, clause_hist, ctx_seen, nontriv, sam
         if len(samples) < 3 and f["kind"] == "html":
             samples.append(describe(case)["input"][:200])
         viols = coq_violations(b["CONTRACT"])
+        xdup = expanded_name_duplicates(a["trace"])
+        if xdup and not any(v[1] == "duplicate-attribute" for v in viols):
+            stats["expanded_name_duplicates"] = stats.get("expanded_name_duplicates", 0) + 1
+            if stats["expanded_name_duplicates"] <= 3:
+                ck.violation("TreeSink contract breached (duplicate-attribute by expanded name) by call #%d `%s`" % (
+                                 xdup[0][0], xdup[0][1][:200]),
+                             {"kind": "failing-input", "case": case, "input": describe(case), "calls": [x[1] for x in xdup[:5]]},
+                             case_class="duplicate-expanded-name")
         # consistency of the extracted functions: monitor ok => DomSpec.contract_run ok (theorem C05_implies_domspec)
         if not viols and b["DOMSPEC"] != "ok":
             note_broken(ck, "Contract.monitor accepts a trace that DomSpec.contract_run rejects: %r" % case[:300])
